@@ -47,6 +47,9 @@ type c10Case struct {
 	// Setup Request) from each, from a few ms before Stop() is called until it has returned: peers that are just
 	// being accepted while the agent stops
 	Churn int `json:"churn,omitempty"`
+	// Crowd (with Stop only): this many further associations (no sessions) are set up shortly before Stop() - the
+	// agent must stop in bounded time with any number of live associations, also with more than its queues hold
+	Crowd int `json:"crowd,omitempty"`
 }
 
 func genC10(t *rapid.T) c10Case {
@@ -77,6 +80,9 @@ func genC10(t *rapid.T) c10Case {
 	}
 	if c.Stop {
 		c.Churn = rapid.SampledFrom([]int{0, 0, 1, 2}).Draw(t, "churn")
+		if rapid.IntRange(0, 7).Draw(t, "crowded") == 0 {
+			c.Crowd = rapid.SampledFrom([]int{40, 99, 100, 101, 130, 180}).Draw(t, "crowd")
+		}
 	}
 	return c
 }
@@ -304,6 +310,22 @@ func runC10(c c10Case, ev *Ev) (err error) {
 				}
 			}()
 		}
+		if c.Crowd > 0 {
+			// the crowd associates within the last 400 ms before Stop() (well inside the read timeout)
+			time.Sleep(time.Until(stopAt.Add(-400 * time.Millisecond)))
+			for k := 0; k < c.Crowd; k++ {
+				cp, err := rig.NewPeer(fmt.Sprintf("127.0.%d.%d:0", run.PeerBase, 60+k%190), r.A.PFCPAddr())
+				if err != nil {
+					return fmt.Errorf("INFRA: crowd peer: %v", err)
+				}
+				defer cp.Close()
+				_ = cp.Send(model.AssocSetupTS(uint32(0x6600+k), fmt.Sprintf("172.30.%d.%d", k/250, 1+k%250), 0))
+				if k%16 == 15 {
+					time.Sleep(time.Millisecond)
+				}
+			}
+			ev.Label("crowd")
+		}
 		time.Sleep(time.Until(stopAt))
 		stopOK = r.A.StopWithin(15 * time.Second)
 		stopped = true
@@ -314,7 +336,7 @@ func runC10(c c10Case, ev *Ev) (err error) {
 	close(stopKA)
 	wg.Wait()
 	if stopped && !stopOK {
-		return fmt.Errorf("Stop() did not return within 15 s with %d association(s)\n%s", len(c.Assocs), dumpGoroutines())
+		return fmt.Errorf("Stop() did not return within 15 s with %d association(s) (and a crowd of %d more)\n%s", len(c.Assocs), c.Crowd, dumpGoroutines())
 	}
 	// Removal is asserted as an outcome, not against a clock: on a busy machine a read timeout or a heartbeat verdict
 	// can come hundreds of milliseconds late. Wait (bounded) until nothing of an ended association is installed;
@@ -467,7 +489,7 @@ func TestC10(t *testing.T) {
 		_ = 0
 	}
 	ev := newEv("C10")
-	ev.Rule = "one fresh agent per case (read_timeout 1 s, optionally heartbeats 40 ms / resp_timeout 30 ms / 1 retry) with 0-4 associations of 0-3 sessions; every association gets a trigger {none, Association Release (optionally sent twice), silence past the read timeout, the peer's socket closing right after a request so that the agent's answer is refused, unanswered heartbeats} aimed at one instant with 0-30 ms jitter, optionally with a session request in flight, and optionally Stop() at that instant, optionally while one or two senders keep introducing new peers (a first datagram from a new socket each); run under the race detector; non-trivial = >= 2 triggers, or Stop() with >= 1 live association; distinct by case"
+	ev.Rule = "one fresh agent per case (read_timeout 1 s, optionally heartbeats 40 ms / resp_timeout 30 ms / 1 retry) with 0-4 associations of 0-3 sessions; every association gets a trigger {none, Association Release (optionally sent twice), silence past the read timeout, the peer's socket closing right after a request so that the agent's answer is refused, unanswered heartbeats} aimed at one instant with 0-30 ms jitter, optionally with a session request in flight, and optionally Stop() at that instant, optionally while one or two senders keep introducing new peers (a first datagram from a new socket each), optionally with a crowd of 40-180 further associations set up shortly before; run under the race detector; non-trivial = >= 2 triggers, or Stop() with >= 1 live association; distinct by case"
 	ev.Assume = []string{"the harness does not own the Go scheduler: coincidences are aimed at with generated jitter and many repetitions, windows narrower than the wake-up jitter can be missed",
 		"Stop() must return within 15 s"}
 	runProp(t, ev, "teardown", true, genC10, runC10)
